@@ -67,6 +67,11 @@ CLAIMED = {
          'dithered_pointing, pointing_is_centre; oracles: real mma round trips vs an independent inverse for DU×roll×dithering×pointings, sky↔pixel, and simulated files '
          '(X,Y→WCS→RA,DEC; DETX,DETY→dithered pointing→RA,DEC; WCS reference; PSF-like displacement).',
          'Lean kernel + Mathlib; translator; astropy.wcs abstract (round trip measured: partial); float32 column storage (0.6 arcsec); DU clocking/focal length/dithering formula re-stated in the harness as independent reference.'),
+ 'C16': ('proof', 'Lean 4 theorems about the generated samplers with RNG draws as parameters, and deterministic pushes of stratified uniforms through the real samplers',
+         'disk_radial_law/disk_inside, annulus_radial_law/annulus_inside (squared tangent-plane radius affine in u for every azimuth; nowhere outside), annulus_old_law_fails '
+         '(regression witness of the repaired defect), gauss_tangent_isotropic, image_pixel_interval (searchsorted on the cumulative ⇒ pixel share), unravel_spec/unravel_row_lt; oracles with '
+         'numpy.random intercepted: area law, azimuth, point sources, Gaussian moments, non-square images, interior pixels vs build_intensity_map incl. centres next to RA 0/360.',
+         'Lean kernel + Mathlib; translator; uniformity of numpy.random and multivariate_normal; astropy.wcs; the statistical comparisons use stratified (deterministic) uniforms, not random samples.'),
 }
 NOT_YET = 'check not built yet in this round (work in progress; see DESIGN.md section 7 for the planned model and theorems)'
 
